@@ -36,6 +36,16 @@ fn hooks() -> Option<Arc<dyn SyncHooks>> {
     }
 }
 
+thread_local! {
+    static SOLE_THREAD: std::cell::Cell<bool> = const { std::cell::Cell::new(false) };
+}
+
+/// Declares that everything the calling thread starts (with no pool or a sequential pool) runs on this thread
+/// alone: a real wait on a protocol condition variable can then never end, and panics instead.
+pub fn set_sole_thread(on: bool) {
+    SOLE_THREAD.with(|s| s.set(on));
+}
+
 static REQUESTS_IN_POOL_JOBS: std::sync::Mutex<Vec<(std::thread::ThreadId, usize)>> =
     std::sync::Mutex::new(Vec::new());
 
@@ -169,6 +179,11 @@ impl Condvar {
                 Ok(MutexGuard { guard: Some(g), mutex, hooks: Some(h) })
             }
             None => {
+                if SOLE_THREAD.with(|s| s.get()) {
+                    // nobody else can ever send the notification: report instead of hanging
+                    drop(guard);
+                    panic!("verif: condition-variable wait on the only thread of a sequential run (self-deadlock)");
+                }
                 let g = guard.guard.take().unwrap();
                 drop(guard);
                 let g = self.inner.wait(g).unwrap_or_else(|e| e.into_inner());
